@@ -79,6 +79,9 @@ class Unit:
     expected_fail: list = field(default_factory=list)
     trusted: list = field(default_factory=list)  # unit-specific assumption lines
     uses: list = field(default_factory=list)     # `use` lines of the source files the items rely on (e.g. "use std::mem;")
+    # when set: only failed obligations whose verifier text mentions one of these fragments count for this unit's property;
+    # any other failure (clauses the unit shares with another property's unit) makes the unit UNDECIDED, never an alarm
+    clause_scope: list = field(default_factory=list)
 
 
 _src_cache = {}
@@ -334,7 +337,12 @@ def generate(unit: Unit, root, rules_mod):
             it2.loops, it2.ghost = {}, []
             t, n_loops = annotate_fn(t, it2, meta["rewrites"], where)
             mt_ = mask(t)
+            end_ = len(mt_.rstrip()) - 1
             bo = find_top_level(mt_, mt_.index("fn "), "{")
+            while bo >= 0 and match_delim(mt_, bo) != end_:   # braces inside the contract (if/let/match expressions) are not the body
+                bo = find_top_level(mt_, match_delim(mt_, bo) + 1, "{")
+            if bo < 0:
+                raise AnchorLost(f"{where}: body of contract-only function not found")
             t = "#[verifier::external_body]\n" + t[:bo] + "{ unimplemented!() }"
             meta["rewrites"].append({"where": where, "kind": "contract-only", "old": "<body>", "new": "external_body stub (contract proved in its own unit)", "count": 1})
         else:
